@@ -147,6 +147,7 @@ pub struct NodeStream {
     /// (ro flag, line) of requests the node sent since the last snapshot
     pub requests_since_snap: Vec<(bool, String)>,
     pub first_seen_in_table: HashMap<SocketAddrV4, u64>,
+    pub first_seen_in_signed: HashMap<SocketAddrV4, u64>,
     pub has_bootstrap: bool,
     pub sent_since_snap: usize,
     /// part of a multi-node case: the simulated network and the clock belong to the case
@@ -176,6 +177,7 @@ impl NodeStream {
             replies_since_snap: vec![],
             requests_since_snap: vec![],
             first_seen_in_table: HashMap::new(),
+            first_seen_in_signed: HashMap::new(),
             has_bootstrap: false,
             sent_since_snap: 0,
             multi: false,
@@ -636,6 +638,18 @@ impl NodeStream {
                 out.violation("C14", "silent-peer-kept", format!("{}@{addr} has not answered for {} min but is still in the routing table", hex(id.as_bytes()), (now - last) / (60 * SEC)));
             }
         }
+        // the same for the table of the peers that support signed announcements
+        let in_signed: std::collections::HashSet<SocketAddrV4> = s.signed_peers_routing_table.iter().map(|(_, a, _)| *a).collect();
+        for a in &in_signed {
+            self.first_seen_in_signed.entry(*a).or_insert(now);
+        }
+        self.first_seen_in_signed.retain(|a, _| in_signed.contains(a));
+        for (id, addr, _) in s.signed_peers_routing_table.iter() {
+            let last = self.any_reply.get(addr).copied().unwrap_or(0).max(self.first_seen_in_signed.get(addr).copied().unwrap_or(now));
+            if now - last > 21 * 60 * SEC {
+                out.violation("C14", "silent-peer-kept", format!("{}@{addr} has not answered for {} min but is still in the signed-peers routing table", hex(id.as_bytes()), (now - last) / (60 * SEC)));
+            }
+        }
     }
 
     /// C06 / C20: nothing is left once every call returned and every request expired
@@ -750,6 +764,7 @@ impl Stream for NodeStream {
         self.replies_since_snap.clear();
         self.requests_since_snap.clear();
         self.first_seen_in_table.clear();
+        self.first_seen_in_signed.clear();
         self.has_bootstrap = !matches!(kv(args, "boot"), Some("-") | None);
         self.sent_since_snap = 0;
         // the first maintenance ran inside `wait_parked`; learn our id through a snapshot-free path:
@@ -2247,6 +2262,35 @@ pub fn run(out: &mut Out, seed: u64, thorough: bool, replay: Option<&str>) {
         }
         d.finish();
         d.out.mark_distinct(fnv(format!("G{round}").as_bytes()));
+        d.s.shutdown();
+    }
+    // ---- G3 (C14): a server with a bootstrap list hears find_node requests from strangers that support
+    //          signed announcements (they enter the signed-peers table only) and never answer a ping:
+    //          they are gone from that table too within some twenty minutes
+    for round in 0..(if thorough { 3 } else { 1 }) {
+        t0 += 10_000_000_000_000;
+        let net = VNet::new(&mut rng, 6 + 10 * round, true);
+        let boot = vec![net.peers[0].addr];
+        let mut d = Driver::new(out, rng.next(), net);
+        d.begin("s", &boot, None, rng.next() % 1_000_000 + 1, t0);
+        d.run_for(3 * SEC, 10 * MS);
+        for j in 0..3u8 {
+            let from = SocketAddrV4::new(Ipv4Addr::new(10, 77, 0, 1 + j), 6881);
+            let rid = Id::from_bytes(d.rng.id20()).expect("id");
+            d.inject_request(from, rid, RequestTypeSpecific::FindNode(FindNodeRequestArguments { target: rid }), false);
+        }
+        d.run_for(2 * SEC, 10 * MS);
+        d.run("snap".into());
+        let strangers = d.s.last_snapshot.as_ref().map(|sn| sn.signed_peers_routing_table.iter().filter(|(_, a, _)| a.ip().octets()[1] == 77).count()).unwrap_or(0);
+        d.out.count(&format!("strangers-in-signed-table={strangers}"));
+        for minute in 0..32 {
+            d.run_for(60 * SEC, SEC);
+            if minute % 5 == 4 {
+                d.run("snap".into());
+            }
+        }
+        d.finish();
+        d.out.mark_distinct(fnv(format!("G3{round}").as_bytes()));
         d.s.shutdown();
     }
     // ---- G2: every peer goes silent until the table is empty, then the bootstrap node comes back
